@@ -1,130 +1,329 @@
-// C03: FdEvent on both back-ends (engine H, fork per evaluation, ASan, per-fd record pools de-pooled).
-// usage: harness <config 0..5> <depth> <script_first> <script_last>
+// C03: FdEvent on both back-ends (engine H, fork per evaluation, ASan).
+// usage: harness <config 0..6> <depth> <script_first> <script_last> [lane [part nparts]]
+//   lane 0 = base menu (enable/disable/feed/drain/pass)
+//   lane 1 = life-cycle menu (base + re-initialise to another descriptor / with another mask, destroy+re-create,
+//            close the peer of a pipe), explored for the scripts selected by ext_lane_script()
+// Every history is executed on FOUR loops in one forked child:
+//   epoll and select with the per-fd record pool de-pooled (ASan sees every use of a released record), and
+//   epoll and select with the pool as shipped (released records are recycled) and a 2-entry epoll_wait() array
+//   (two ready descriptors hit the "array was full -> grow" branch without truncating the pass).
+// The oracle is the reference model kept in World (en/alive/d/mask), never the implementation's own bookkeeping.
 #include "hist/hist.h"
 #include <tbox/event/loop.h>
 #include <tbox/event/fd_event.h>
 #include <tbox/event/engines/epoll/loop.h>
+#include <tbox/event/engines/epoll/fd_event.h>
 #include <tbox/event/engines/select/loop.h>
+#include <tbox/event/engines/select/fd_event.h>
 #include <fcntl.h>
 #include <poll.h>
 #include <sys/socket.h>
 #include <stdexcept>
+#include <unordered_map>
 using namespace tbox::event;
 
-enum K { ENABLE, DISABLE, FEED, DRAIN, PASS };
-enum A { NONE, DIS_SELF, DIS_TGT, DESTROY_TGT, ENABLE_TGT, DESTROY_TGT_NEW, DESTROY_TGT_CLOSE, DIS_TGT_EN_THIRD, DESTROY_TGT_EN_THIRD };
-static const char *kN[] = {"enable", "disable", "feed", "drain", "pass"};
-static const char *aN[] = {"none", "disable-self", "disable", "destroy", "enable", "destroy+new-event-on-3rd-fd", "destroy+close-fd", "disable+enable-the-third-event", "destroy+enable-the-third-event"};
+enum K { ENABLE, DISABLE, FEED, DRAIN, PASS, REINIT_FD, REINIT_MASK, RECREATE, CLOSE_PEER };
+enum A { NONE, DIS_SELF, DIS_TGT, DESTROY_TGT, ENABLE_TGT, DESTROY_TGT_NEW, DESTROY_TGT_CLOSE, DIS_TGT_EN_THIRD, DESTROY_TGT_EN_THIRD,
+         ENABLE_SELF, DIS_EN_TGT, REINIT_TGT_EN, DESTROY_TGT_NEW_SAME };
+static const char *kN[] = {"enable", "disable", "feed", "drain", "pass", "reinit-next-fd", "reinit-next-mask", "recreate", "close-peer"};
+static const char *aN[] = {"none", "disable-self", "disable", "destroy", "enable", "destroy+new-event-on-3rd-fd", "destroy+close-fd", "disable+enable-the-third-event", "destroy+enable-the-third-event",
+                           "rearm-self", "disable+enable", "move-to-3rd-fd+enable", "destroy+new-event-on-same-fd"};
 struct Op { int k, a; };
 struct Script { int e, act, tgt; };
-static const int NE = 3;
+static const int NE = 3, ND = 3, NCFG = 7;
 struct EvCfg { int d; short mask; bool oneshot; };
-// descriptors: 0,1,2 = read ends of pipes (config 2: descriptor 0 = one end of a socketpair)
-static const EvCfg CFG[6][NE] = {
-  {{0, FdEvent::kReadEvent, false}, {0, FdEvent::kReadEvent, true}, {1, FdEvent::kReadEvent, false}},
-  {{0, FdEvent::kReadEvent, false}, {1, FdEvent::kReadEvent, false}, {1, FdEvent::kReadEvent, true}},
-  {{0, (short)(FdEvent::kReadEvent | FdEvent::kWriteEvent), false}, {0, FdEvent::kWriteEvent, true}, {1, FdEvent::kReadEvent, false}},
+static const short R = FdEvent::kReadEvent, W = FdEvent::kWriteEvent, E = FdEvent::kExceptEvent;
+// descriptors: 0,1,2 = read ends of pipes (configs 2..4: descriptor 0 = one end of a socketpair); 2 is never fed
+static const EvCfg CFG[NCFG][NE] = {
+  {{0, R, false}, {0, R, true}, {1, R, false}},
+  {{0, R, false}, {1, R, false}, {1, R, true}},
+  {{0, (short)(R | W), false}, {0, W, true}, {1, R, false}},
   // different masks on one descriptor, the one-shot subscribing to the condition that is NOT always ready:
-  {{0, FdEvent::kWriteEvent, false}, {0, FdEvent::kReadEvent, true}, {1, FdEvent::kReadEvent, false}},
-  {{0, FdEvent::kReadEvent, true}, {0, FdEvent::kWriteEvent, true}, {0, (short)(FdEvent::kReadEvent | FdEvent::kWriteEvent), false}},
+  {{0, W, false}, {0, R, true}, {1, R, false}},
+  {{0, R, true}, {0, W, true}, {0, (short)(R | W), false}},
   // three read events on ONE descriptor (a callback can remove one subscriber and add another in the same pass)
-  {{0, FdEvent::kReadEvent, false}, {0, FdEvent::kReadEvent, false}, {0, FdEvent::kReadEvent, false}},
+  {{0, R, false}, {0, R, false}, {0, R, false}},
+  // the exception condition is subscribed (it never arises on a pipe: the E-only event must never be called)
+  {{0, (short)(R | E), false}, {0, E, true}, {1, R, false}},
 };
+static bool is_socket(int cfg, int d) { return cfg >= 2 && cfg <= 4 && d == 0; }
+static short next_mask(short m) { return m == R ? W : m == W ? (short)(R | W) : m == (R | W) ? (short)(R | E) : R; }
+
 struct Call { int e; short m; };
 struct World {
-  Loop *loop = nullptr; int rd[3], wr[3]; FdEvent *ev[NE + 1]; bool alive[NE + 1], en[NE + 1], oneshot[NE + 1]; short mask[NE + 1]; int d[NE + 1];
-  short snap[3]; std::string viol; std::vector<std::vector<Call>> passes; bool closed[3] = {false, false, false};
+  Loop *loop = nullptr; bool is_epoll = false; int cfg = 0;
+  int rd[ND], wr[ND]; bool closed[ND] = {false, false, false}, peer_closed[ND] = {false, false, false};
+  FdEvent *ev[NE + 1]; bool alive[NE + 1], en[NE + 1], oneshot[NE + 1]; short mask[NE + 1]; int d[NE + 1];
+  short snap[ND]; std::string viol; unsigned called = 0;     // bit e: the callback of event e was entered at least once
+  std::vector<std::vector<Call>> passes;     // callbacks delivered, per pass
+  std::vector<std::vector<Call>> expected;   // the model's exact callback set of the pass (valid when exact[p])
+  std::vector<char> exact, indep;            // per pass: the model knows the exact set / the pass cannot depend on the serving order
 };
 
+static short ready_bits(short snap) { short r = 0; if (snap & (POLLIN | POLLHUP)) r |= R; if (snap & POLLOUT) r |= W; if (snap & (POLLERR | POLLPRI)) r |= E; return r; }
+static Event::Mode mode_of(bool oneshot) { return oneshot ? Event::Mode::kOneshot : Event::Mode::kPersist; }
 static void on_cb(World &w, const Script &sc, int e, short m);
 static void make_event(World &w, const Script &sc, int e, int d, short mask, bool oneshot) {
-  w.ev[e] = w.loop->newFdEvent("e"); w.ev[e]->initialize(w.rd[d], mask, oneshot ? Event::Mode::kOneshot : Event::Mode::kPersist);
+  w.ev[e] = w.loop->newFdEvent("e"); w.ev[e]->initialize(w.rd[d], mask, mode_of(oneshot));
   w.alive[e] = true; w.en[e] = false; w.oneshot[e] = oneshot; w.mask[e] = mask; w.d[e] = d;
   World *pw = &w; const Script *ps = &sc; w.ev[e]->setCallback([pw, ps, e](short m) { on_cb(*pw, *ps, e, m); });
 }
+static void destroy_event(World &w, int t) { w.alive[t] = false; w.en[t] = false; delete w.ev[t]; w.ev[t] = nullptr; }
+// re-initialise a (model-)disabled event; on an enabled event the call must change nothing (the code refuses it)
+static void reinit_event(World &w, int e, int nd, short nmask) {
+  w.ev[e]->initialize(w.rd[nd], nmask, mode_of(w.oneshot[e]));      // same mode as before: the mode of a re-initialised event is outside the property
+  if (!w.en[e]) { w.d[e] = nd; w.mask[e] = nmask; }
+}
+static int next_open_fd(const World &w, int d) { for (int k = 1; k <= ND; k++) { int nd = (d + k) % ND; if (!w.closed[nd]) return nd; } return d; }
+
 static void on_cb(World &w, const Script &sc, int e, short m) {
+  w.called |= 1u << e;
   if (!w.viol.empty()) return;
   if (!w.alive[e]) { w.viol = "callback-on-destroyed-event e" + std::to_string(e); return; }
   if (!w.en[e]) { w.viol = "callback-on-disabled-event e" + std::to_string(e); return; }
   if (w.oneshot[e]) { w.en[e] = false; if (w.ev[e]->isEnabled()) { w.viol = "oneshot-still-enabled-in-its-callback"; return; } }
   short hit = (short)(m & w.mask[e]);
   if (!hit) { w.viol = "reported-mask-lacks-every-subscribed-condition"; return; }
-  if ((hit & FdEvent::kReadEvent) && !(w.snap[w.d[e]] & (POLLIN | POLLHUP))) { w.viol = "read-callback-but-descriptor-was-not-readable e" + std::to_string(e); return; }
-  if ((hit & FdEvent::kWriteEvent) && !(w.snap[w.d[e]] & POLLOUT)) { w.viol = "write-callback-but-descriptor-was-not-writable e" + std::to_string(e); return; }
+  if ((hit & R) && !(w.snap[w.d[e]] & (POLLIN | POLLHUP))) { w.viol = "read-callback-but-descriptor-was-not-readable e" + std::to_string(e); return; }
+  if ((hit & W) && !(w.snap[w.d[e]] & POLLOUT)) { w.viol = "write-callback-but-descriptor-was-not-writable e" + std::to_string(e); return; }
+  if ((hit & E) && !(w.snap[w.d[e]] & (POLLERR | POLLPRI))) { w.viol = "except-callback-but-descriptor-had-no-exceptional-condition e" + std::to_string(e); return; }
   for (auto &c : w.passes.back()) if (c.e == e) { w.viol = "event-called-twice-in-one-pass e" + std::to_string(e); return; }
   w.passes.back().push_back(Call{e, hit});
   if (sc.e != e) return; int t = sc.tgt;
   switch (sc.act) {
     case DIS_SELF: w.ev[e]->disable(); w.en[e] = false; break;
+    case ENABLE_SELF:      // a one-shot re-arms itself; a persistent event takes itself off the list and re-queues itself at its tail
+      if (!w.oneshot[e]) w.ev[e]->disable();
+      w.ev[e]->enable(); w.en[e] = true; break;
     case DIS_TGT: if (w.alive[t]) { w.ev[t]->disable(); w.en[t] = false; } break;
     case ENABLE_TGT: if (w.alive[t]) { w.ev[t]->enable(); w.en[t] = true; } break;
+    case DIS_EN_TGT: if (w.alive[t]) { w.ev[t]->disable(); w.ev[t]->enable(); w.en[t] = true; } break;
+    case REINIT_TGT_EN:    // move the target to the third descriptor (which has no record unless somebody already sits there) and enable it
+      if (w.alive[t] && t != e) { int nd = w.d[t] != 2 ? 2 : CFG[w.cfg][t].d;
+        if (!w.closed[nd]) { w.ev[t]->disable(); w.en[t] = false; reinit_event(w, t, nd, w.mask[t]); w.ev[t]->enable(); w.en[t] = true; } }
+      break;
     case DIS_TGT_EN_THIRD: case DESTROY_TGT_EN_THIRD: { int third = 3 - e - t;      // the event that is neither the running one nor the target
-      if (t != e && w.alive[t]) { if (sc.act == DIS_TGT_EN_THIRD) { w.ev[t]->disable(); w.en[t] = false; } else { w.alive[t] = false; w.en[t] = false; delete w.ev[t]; w.ev[t] = nullptr; } }
+      if (t != e && w.alive[t]) { if (sc.act == DIS_TGT_EN_THIRD) { w.ev[t]->disable(); w.en[t] = false; } else destroy_event(w, t); }
       if (third >= 0 && third < NE && third != e && w.alive[third]) { w.ev[third]->enable(); w.en[third] = true; } } break;
-    case DESTROY_TGT: case DESTROY_TGT_NEW: case DESTROY_TGT_CLOSE:
-      if (w.alive[t] && t != e) { w.alive[t] = false; w.en[t] = false; delete w.ev[t]; w.ev[t] = nullptr;
-        if (sc.act == DESTROY_TGT_CLOSE && !w.closed[w.d[t]]) { bool shared = false; for (int x = 0; x < NE; x++) if (w.alive[x] && w.d[x] == w.d[t]) shared = true; if (!shared) { close(w.rd[w.d[t]]); w.closed[w.d[t]] = true; } }
-        if (sc.act == DESTROY_TGT_NEW && !w.alive[NE]) { make_event(w, sc, NE, 2, FdEvent::kReadEvent, false); w.ev[NE]->enable(); w.en[NE] = true; } }
+    case DESTROY_TGT: case DESTROY_TGT_NEW: case DESTROY_TGT_CLOSE: case DESTROY_TGT_NEW_SAME:
+      if (w.alive[t] && t != e) { destroy_event(w, t);
+        if (sc.act == DESTROY_TGT_CLOSE && !w.closed[w.d[t]]) { bool shared = false; for (int x = 0; x <= NE; x++) if (w.alive[x] && w.d[x] == w.d[t]) shared = true; if (!shared) { close(w.rd[w.d[t]]); w.closed[w.d[t]] = true; } }
+        if (sc.act == DESTROY_TGT_NEW && !w.alive[NE] && !w.closed[2]) { make_event(w, sc, NE, 2, R, false); w.ev[NE]->enable(); w.en[NE] = true; }
+        if (sc.act == DESTROY_TGT_NEW_SAME && !w.alive[NE] && !w.closed[w.d[t]]) { make_event(w, sc, NE, w.d[t], w.mask[t], false); w.ev[NE]->enable(); w.en[NE] = true; } }
       break;
   }
 }
 
-static std::string run_engine(const char *eng, int cfg, const Script &sc, const std::vector<Op> &h, World &w) {
-  w.loop = Loop::New(eng);
-  if (!strcmp(eng, "epoll")) static_cast<EpollLoop *>(w.loop)->fd_shared_data_pool_.keep_number_ = 0; else static_cast<SelectLoop *>(w.loop)->fd_shared_data_pool_.keep_number_ = 0;
-  for (int i = 0; i < 3; i++) { int p[2]; if (cfg >= 2 && cfg <= 4 && i == 0) { socketpair(AF_UNIX, SOCK_STREAM | SOCK_NONBLOCK, 0, p); w.rd[i] = p[0]; w.wr[i] = p[1]; } else { pipe2(p, O_NONBLOCK); w.rd[i] = p[0]; w.wr[i] = p[1]; } }
+static bool self_only(int act) { return act == NONE || act == DIS_SELF || act == ENABLE_SELF; }
+
+// what the kernel holds for the epoll instance: "<descriptor index>=<interest mask>" per registered descriptor
+static std::string epoll_kernel_view(World &w, int epfd) {
+  char path[64]; snprintf(path, sizeof path, "/proc/self/fdinfo/%d", epfd);
+  FILE *f = fopen(path, "r"); if (!f) return "?";
+  std::vector<std::string> items; char line[256];
+  while (fgets(line, sizeof line, f)) { int tfd; unsigned evs; if (sscanf(line, "tfd: %d events: %x", &tfd, &evs) == 2) { int di = -1; for (int i = 0; i < ND; i++) if (w.rd[i] == tfd) di = i; char b[48]; snprintf(b, sizeof b, "%d=%x", di, evs & (EPOLLIN | EPOLLOUT | EPOLLERR)); items.push_back(b); } }
+  fclose(f); std::sort(items.begin(), items.end());
+  std::string s; for (auto &i : items) s += i + ","; return s;
+}
+template <class LoopT, class EvT> static std::string impl_key(World &w) {
+  auto *l = static_cast<LoopT *>(w.loop); std::string c;
+  for (int e = 0; e <= NE; e++) if (w.alive[e]) { auto *x = static_cast<EvT *>(w.ev[e]); int di = -1; for (int i = 0; i < ND; i++) if (w.rd[i] == x->fd_) di = i;
+    char b[48]; snprintf(b, sizeof b, "i%d:%d.%x.%d%d;", e, di, (unsigned)x->events_, (int)x->is_stop_after_trigger_, (int)x->is_enabled_); c += b; }
+  std::vector<std::string> recs;
+  for (auto &kv : l->fd_data_map_) { int di = -1; for (int i = 0; i < ND; i++) if (w.rd[i] == kv.first) di = i;
+    std::string r = std::to_string(di) + ":" + std::to_string(kv.second->ref) + "," + std::to_string(kv.second->read_event_num) + "," + std::to_string(kv.second->write_event_num) + "," + std::to_string(kv.second->except_event_num) + "[";
+    for (auto *p : kv.second->fd_events) { int idx = -1; for (int e = 0; e <= NE; e++) if (w.alive[e] && static_cast<EvT *>(w.ev[e]) == p) idx = e; r += idx < 0 ? std::string("?") : std::to_string(idx); }   // ORDER of the subscribers matters for the dispatch
+    recs.push_back(r + "]"); }
+  std::sort(recs.begin(), recs.end()); c += "#" + std::to_string(recs.size()); for (auto &r : recs) c += r;
+  auto &pool = l->fd_shared_data_pool_; c += "~" + std::to_string(pool.free_number_) + "/" + std::to_string(pool.stat_.total_alloc_times - pool.stat_.total_free_times);
+  return c;
+}
+
+// variant 0: per-fd records de-pooled; variant 1: pool as shipped + 2-entry epoll_wait array
+static std::string run_engine(const char *eng, int variant, int cfg, const Script &sc, const std::vector<Op> &h, World &w) {
+  w.loop = Loop::New(eng); w.is_epoll = !strcmp(eng, "epoll"); w.cfg = cfg;
+  if (variant == 0) { if (w.is_epoll) static_cast<EpollLoop *>(w.loop)->fd_shared_data_pool_.keep_number_ = 0; else static_cast<SelectLoop *>(w.loop)->fd_shared_data_pool_.keep_number_ = 0; }
+  else if (w.is_epoll) static_cast<EpollLoop *>(w.loop)->max_loop_entries_ = 2;
+  for (int i = 0; i < ND; i++) { int p[2]; if (is_socket(cfg, i)) { if (socketpair(AF_UNIX, SOCK_STREAM | SOCK_NONBLOCK, 0, p)) abort(); } else { if (pipe2(p, O_NONBLOCK)) abort(); } w.rd[i] = p[0]; w.wr[i] = p[1]; }
   for (int e = 0; e < NE; e++) make_event(w, sc, e, CFG[cfg][e].d, CFG[cfg][e].mask, CFG[cfg][e].oneshot);
-  w.alive[NE] = false; w.ev[NE] = nullptr; w.en[NE] = false;
+  w.alive[NE] = false; w.ev[NE] = nullptr; w.en[NE] = false; w.d[NE] = 2; w.mask[NE] = 0; w.oneshot[NE] = false;
   try {
     for (auto &o : h) { if (!w.viol.empty()) break;
       switch (o.k) {
         case ENABLE: if (w.alive[o.a]) { w.ev[o.a]->enable(); w.en[o.a] = true; } break;
         case DISABLE: if (w.alive[o.a]) { w.ev[o.a]->disable(); w.en[o.a] = false; } break;
-        case FEED: { char c = 'x'; ssize_t r = write(w.wr[o.a], &c, 1); (void)r; } break;
+        case FEED: if (!w.peer_closed[o.a]) { char c = 'x'; ssize_t r = write(w.wr[o.a], &c, 1); (void)r; } break;
         case DRAIN: if (!w.closed[o.a]) { char b[64]; while (read(w.rd[o.a], b, 64) > 0) {} } break;
+        case REINIT_FD: if (w.alive[o.a]) reinit_event(w, o.a, next_open_fd(w, w.d[o.a]), w.mask[o.a]); break;
+        case REINIT_MASK: if (w.alive[o.a] && !w.closed[w.d[o.a]]) reinit_event(w, o.a, w.d[o.a], next_mask(w.mask[o.a])); break;
+        case RECREATE: if (!w.closed[CFG[cfg][o.a].d]) { if (w.alive[o.a]) destroy_event(w, o.a); make_event(w, sc, o.a, CFG[cfg][o.a].d, CFG[cfg][o.a].mask, CFG[cfg][o.a].oneshot); } break;
+        case CLOSE_PEER: if (!w.peer_closed[o.a] && !is_socket(cfg, o.a)) { close(w.wr[o.a]); w.peer_closed[o.a] = true; } break;
         case PASS: {
-          for (int i = 0; i < 3; i++) { w.snap[i] = 0; if (w.closed[i]) continue; struct pollfd pf = {w.rd[i], POLLIN | POLLOUT, 0}; poll(&pf, 1, 0); w.snap[i] = pf.revents; }
+          for (int i = 0; i < ND; i++) { w.snap[i] = 0; if (w.closed[i]) continue; struct pollfd pf = {w.rd[i], POLLIN | POLLOUT | POLLPRI, 0}; poll(&pf, 1, 0); w.snap[i] = pf.revents; }
+          // the model's view of the pass: who is enabled and ready now; nothing but the script's actor can change that during the pass
+          // a descriptor is (possibly) SERVED in this pass if it has an enabled subscriber and is ready for a subscribed condition or hung up / in error
+          // (epoll reports HUP/ERR whatever the interest is)
+          std::vector<Call> exp; bool actor_runs = false; int nd = 0; bool dseen[ND] = {false, false, false};
+          for (int e = 0; e <= NE; e++) if (w.alive[e] && w.en[e]) { short hit = (short)(w.mask[e] & ready_bits(w.snap[w.d[e]]));
+            if (hit) { exp.push_back(Call{e, hit}); if (e == sc.e) actor_runs = true; }
+            if ((hit || (w.snap[w.d[e]] & (POLLHUP | POLLERR))) && !dseen[w.d[e]]) { dseen[w.d[e]] = true; nd++; } }
           w.passes.emplace_back();
           w.loop->runNext([] {}); w.loop->runLoop(Loop::Mode::kOnce);
+          // nothing but the script's actor changes anything during a pass: if the actor was not called (or acts only on itself) the model's set is exact
+          bool actor_called = false; for (auto &c : w.passes.back()) if (c.e == sc.e) actor_called = true;
+          bool ex = self_only(sc.act) || !actor_called; (void)actor_runs;
+          w.expected.push_back(exp); w.exact.push_back(ex); w.indep.push_back(ex || nd <= 1);
+          if (w.viol.empty() && ex) {      // callbacks never drain, so every enabled subscriber of a ready descriptor is due exactly once, with exactly its ready conditions
+            auto key = [](std::vector<Call> v) { std::vector<int> k; for (auto &c : v) k.push_back(c.e * 8 + c.m); std::sort(k.begin(), k.end()); return k; };
+            if (key(exp) != key(w.passes.back())) { std::string s = "callbacks-differ-from-the-enabled-and-ready-set expected="; for (auto &c : exp) s += "e" + std::to_string(c.e) + "/" + std::to_string(c.m) + ","; s += "_got="; for (auto &c : w.passes.back()) s += "e" + std::to_string(c.e) + "/" + std::to_string(c.m) + ","; w.viol = s; }
+          }
         } break; }
       for (int e = 0; e <= NE && w.viol.empty(); e++) if (w.alive[e] && w.ev[e]->isEnabled() != w.en[e]) w.viol = "isEnabled-disagrees-with-history e" + std::to_string(e);
     }
   } catch (const std::exception &ex) { w.viol = std::string("exception-out-of-runLoop(") + ex.what() + ")"; for (auto &c : w.viol) if (c == ' ') c = '_'; }
-  std::string c; for (int e = 0; e <= NE; e++) { char b[32]; snprintf(b, 32, "%d%d|", (int)w.alive[e], (int)w.en[e]); c += b; }
-  for (int i = 0; i < 3; i++) { if (w.closed[i]) { c += 'X'; continue; } struct pollfd pf = {w.rd[i], POLLIN, 0}; poll(&pf, 1, 0); c += (pf.revents & POLLIN) ? 'R' : '-'; }
-  // back-end bookkeeping is part of the state (stale records are the failure mode)
-  if (!strcmp(eng, "epoll")) { auto *l = static_cast<EpollLoop *>(w.loop); c += "#" + std::to_string(l->fd_data_map_.size()); for (auto &kv : l->fd_data_map_) c += ":" + std::to_string(kv.second->ref) + "," + std::to_string(kv.second->fd_events.size()) + "," + std::to_string(kv.second->read_event_num) + std::to_string(kv.second->write_event_num); }
-  else { auto *l = static_cast<SelectLoop *>(w.loop); c += "#" + std::to_string(l->fd_data_map_.size()); for (auto &kv : l->fd_data_map_) c += ":" + std::to_string(kv.second->ref) + "," + std::to_string(kv.second->fd_events.size()) + "," + std::to_string(kv.second->read_event_num) + std::to_string(kv.second->write_event_num); }
+  // canonical state: model ...
+  std::string c; for (int e = 0; e <= NE; e++) { char b[48]; snprintf(b, sizeof b, "%d%d%d.%x|", (int)w.alive[e], (int)w.en[e], w.alive[e] ? w.d[e] : 0, w.alive[e] ? (unsigned)w.mask[e] : 0u); c += b; }
+  // ... kernel readiness ...
+  for (int i = 0; i < ND; i++) { if (w.closed[i]) { c += 'X'; continue; } struct pollfd pf = {w.rd[i], POLLIN, 0}; poll(&pf, 1, 0); c += (pf.revents & POLLIN) ? 'R' : '-'; if (pf.revents & POLLHUP) c += 'H'; if (w.peer_closed[i]) c += 'c'; }
+  // ... and the back-end's bookkeeping (stale records / counters / list order / kernel registration are the failure modes)
+  if (w.viol.empty()) {
+    if (w.is_epoll) { c += impl_key<EpollLoop, EpollFdEvent>(w); auto *l = static_cast<EpollLoop *>(w.loop); c += "@"; { std::vector<std::string> v; for (auto &kv : l->fd_data_map_) { int di = -1; for (int i = 0; i < ND; i++) if (w.rd[i] == kv.first) di = i; char b[48]; snprintf(b, sizeof b, "%d=%x,", di, (unsigned)kv.second->ev.events); v.push_back(b); } std::sort(v.begin(), v.end()); for (auto &x : v) c += x; }
+      c += "@k" + epoll_kernel_view(w, l->epollFd()); }
+    else c += impl_key<SelectLoop, SelectFdEvent>(w);
+  }
   for (int e = 0; e <= NE; e++) if (w.alive[e]) delete w.ev[e];
-  delete w.loop; for (int i = 0; i < 3; i++) { if (!w.closed[i]) close(w.rd[i]); close(w.wr[i]); }
+  delete w.loop; for (int i = 0; i < ND; i++) { if (!w.closed[i]) close(w.rd[i]); if (!w.peer_closed[i]) close(w.wr[i]); }
   return c;
 }
 
+// scripts that are also explored with the life-cycle menu (lane 1): the ones that keep the pass exactly predictable,
+// plus plain destroy / enable of another event (record reference counting after a re-initialisation)
+static bool ext_lane_script(const Script &sc) { return self_only(sc.act) || sc.act == DESTROY_TGT || sc.act == ENABLE_TGT; }
+static bool is_ext(int k) { return k == REINIT_FD || k == REINIT_MASK || k == RECREATE || k == CLOSE_PEER; }
+
+// configuration automorphisms: a script that is the image of an earlier script under a renaming of identical events explores an isomorphic history set
+static bool is_symmetric_image(int cfg, const Script &sc, const std::vector<Script> &all, int idx) {
+  int perm[NE] = {0, 1, 2};
+  do {
+    bool ident = true, autom = true; for (int e = 0; e < NE; e++) { if (perm[e] != e) ident = false; const EvCfg &a = CFG[cfg][e], &b = CFG[cfg][perm[e]]; if (a.d != b.d || a.mask != b.mask || a.oneshot != b.oneshot) autom = false; }
+    if (ident || !autom) continue;
+    for (int j = 0; j < idx; j++) if (all[j].act == sc.act && all[j].e == perm[sc.e] && all[j].tgt == perm[sc.tgt]) return true;
+  } while (std::next_permutation(perm, perm + NE));
+  return false;
+}
+
+// One evaluation = one history executed on the four loops. Evaluations are executed in forked children, one child per group of sibling
+// histories (the extensions of one history by every operation of the menu); if a child dies (sanitizer report, signal, time-out) its group is
+// executed again one history per child, so that the crash is attributed to the history that causes it.
+// An evaluation in which the script's actor was never called does not depend on the script at all (the script text is only reached from the
+// actor's callback, and the oracle of such a run is the maximal one), so its result is shared between the scripts explored by this process.
+// Evaluations in which the script did act are remembered per script, so that the second (deeper) round does not execute the first round again.
+struct Res { std::string canon, viol; unsigned called; };
+static std::unordered_map<std::string, Res> g_shared, g_own, g_pending;
+static size_t g_reused = 0, g_evals = 0, g_forks = 0, g_lookups = 0, g_regroup = 0, g_explores = 0;
+static std::string hist_key(const std::vector<Op> &h) { std::string hk; for (auto &o : h) { hk.push_back((char)('a' + o.k)); hk.push_back((char)('0' + o.a)); } return hk; }
+
 int main(int argc, char **argv) {
-  int cfg = argc > 1 ? atoi(argv[1]) : 0; size_t depth = argc > 2 ? atoi(argv[2]) : 4; int s0 = argc > 3 ? atoi(argv[3]) : 0, s1 = argc > 4 ? atoi(argv[4]) : 1000;
+  int cfg = argc > 1 ? atoi(argv[1]) : 0; size_t depth = argc > 2 ? atoi(argv[2]) : 4; int s0 = argc > 3 ? atoi(argv[3]) : 0, s1 = argc > 4 ? atoi(argv[4]) : 1000; int lane = argc > 5 ? atoi(argv[5]) : 0;
+  int part = argc > 6 ? atoi(argv[6]) : 0, nparts = argc > 7 ? atoi(argv[7]) : 1;      // optional split of the search by the first operation
+  if (cfg < 0 || cfg >= NCFG) return 0;
   std::vector<Script> scripts; scripts.push_back({0, NONE, 0});
   for (int e = 0; e < NE; e++) { scripts.push_back({e, DIS_SELF, e}); for (int t = 0; t < NE; t++) if (t != e) for (int a : {DIS_TGT, DESTROY_TGT, ENABLE_TGT, DESTROY_TGT_NEW, DESTROY_TGT_CLOSE, DIS_TGT_EN_THIRD, DESTROY_TGT_EN_THIRD}) scripts.push_back({e, a, t}); }
+  for (int e = 0; e < NE; e++) { scripts.push_back({e, ENABLE_SELF, e}); for (int t = 0; t < NE; t++) if (t != e) for (int a : {DIS_EN_TGT, REINIT_TGT_EN, DESTROY_TGT_NEW_SAME}) scripts.push_back({e, a, t}); }
   signal(SIGPIPE, SIG_IGN);
-  double deadline = hx::deadline_from_env(600); size_t S = 0, T = 0;
+  const int nvariants = (int)hx::env_int("VERIF_C03_VARIANTS", 2);
+  const int ext_max = (int)hx::env_int("VERIF_C03_EXT_MAX", 2);          // bound: life-cycle operations per history
+  const size_t shared_cap = (size_t)hx::env_int("VERIF_C03_SHARED_CAP", 60000);
+  const bool share = hx::env_int("VERIF_C03_SHARE", 1) != 0, batch = hx::env_int("VERIF_C03_GROUP", 1) != 0;
+  const pid_t parent = getpid();
+  double deadline = hx::deadline_from_env(600);
+  // two rounds: every script to depth-1 first, then every script to the full depth (a run that is cut short by the deadline on a busy machine
+  // has then still covered every script); the second round re-uses every evaluation of the first one
+  std::vector<size_t> rounds; if (depth >= 3 && hx::env_int("VERIF_C03_ROUNDS", 2) >= 2) rounds.push_back(depth - 1); rounds.push_back(depth);
+  std::map<int, std::pair<size_t, size_t>> first_round;      // script -> (states, transitions) counted by the first round
+  for (size_t rdepth : rounds)
   for (int si = s0; si < (int)scripts.size() && si <= s1; si++) {
-    const Script sc = scripts[si];
-    hx::Explorer<Op> ex; char nm[96]; snprintf(nm, sizeof nm, "cfg%d/script%d(e%d:%s->e%d)", cfg, si, sc.e, aN[sc.act], sc.tgt); ex.name = nm;
-    ex.deadline_s = deadline; ex.fork_workers = (int)hx::env_int("VERIF_WORKERS", 4); ex.check_replay_determinism = false;
-    ex.show = [](const Op &o) { char b[32]; snprintf(b, 32, "%s(%d)", kN[o.k], o.a); return std::string(b); };
-    ex.menu = [&](const std::vector<Op> &) { std::vector<Op> m; for (int e = 0; e < NE; e++) { m.push_back({ENABLE, e}); m.push_back({DISABLE, e}); } for (int p = 0; p < 2; p++) { m.push_back({FEED, p}); m.push_back({DRAIN, p}); } m.push_back({PASS, 0}); return m; };
-    ex.sig = [](const std::string &v) { std::string s = v.substr(0, v.find(' ')); return s; };
-    bool order_independent = (sc.act == NONE || sc.act == DIS_SELF);
-    ex.run = [&](const std::vector<Op> &h, std::string &viol) {
-      World we, ws; std::string c1 = run_engine("epoll", cfg, sc, h, we); std::string c2 = run_engine("select", cfg, sc, h, ws);
-      if (!we.viol.empty()) viol = "epoll:" + we.viol; else if (!ws.viol.empty()) viol = "select:" + ws.viol;
-      else if (order_independent) {          // both back-ends must deliver the same callbacks, pass by pass
-        for (size_t p = 0; p < we.passes.size() && viol.empty(); p++) {
-          auto key = [](std::vector<Call> v) { std::vector<int> k; for (auto &c : v) k.push_back(c.e * 8 + c.m); std::sort(k.begin(), k.end()); return k; };
-          if (key(we.passes[p]) != key(ws.passes[p])) viol = "backends-disagree epoll-vs-select pass " + std::to_string(p);
-        } }
-      return c1 + "||" + c2; };
-    ex.explore(depth); S += ex.states; T += ex.transitions;
     if (hx::now_s() > deadline) break;
+    const Script sc = scripts[si];
+    if (lane == 1 && !ext_lane_script(sc) && !hx::env_int("VERIF_C03_LANE1_ALL", 0)) continue;
+    if (is_symmetric_image(cfg, sc, scripts, si)) { if (rdepth == depth) printf("@INFO cfg%d/script%d(e%d:%s->e%d): skipped, image of an earlier script under a renaming of identical events\n", cfg, si, sc.e, aN[sc.act], sc.tgt); continue; }
+    hx::Explorer<Op> ex; char nm[128]; snprintf(nm, sizeof nm, "cfg%d/%sscript%d(e%d:%s->e%d)", cfg, lane ? "life-cycle/" : "", si, sc.e, aN[sc.act], sc.tgt); ex.name = nm;
+    ex.deadline_s = deadline; ex.fork_workers = 0 /* the run function forks by itself, see below */; ex.check_replay_determinism = false; ex.part = part; ex.nparts = nparts;
+    ex.show = [](const Op &o) { char b[40]; snprintf(b, sizeof b, "%s(%d)", kN[o.k], o.a); return std::string(b); };
+    ex.menu = [&](const std::vector<Op> &h) {
+      // harness-side facts that do not involve the code under test: a pipe that already holds a byte is not fed again, an empty one is not drained
+      bool fed[2] = {false, false}, pc[2] = {false, false}; int next = 0;
+      for (auto &o : h) { if (o.k == FEED && !pc[o.a]) fed[o.a] = true; if (o.k == DRAIN) fed[o.a] = false; if (o.k == CLOSE_PEER) pc[o.a] = true; if (is_ext(o.k)) next++; }
+      std::vector<Op> m; for (int e = 0; e < NE; e++) { m.push_back({ENABLE, e}); m.push_back({DISABLE, e}); }
+      for (int p = 0; p < 2; p++) { if (!fed[p] && !pc[p]) m.push_back({FEED, p}); if (fed[p]) m.push_back({DRAIN, p}); } m.push_back({PASS, 0});
+      if (lane == 1 && next < ext_max) { for (int e = 0; e < NE; e++) { m.push_back({REINIT_FD, e}); m.push_back({REINIT_MASK, e}); m.push_back({RECREATE, e}); } for (int p = 0; p < 2; p++) if (!is_socket(cfg, p) && !pc[p]) m.push_back({CLOSE_PEER, p}); }
+      return m; };
+    ex.sig = [](const std::string &v) { std::string s = v.substr(0, v.find(' ')); return s; };
+    auto evaluate = [&](const std::vector<Op> &h, std::string &viol, unsigned &called) {
+      static const char *engs[4] = {"epoll", "select", "epoll", "select"}; static const char *tags[4] = {"epoll:", "select:", "epoll/pooled:", "select/pooled:"};
+      World w[4]; std::string canon; called = 0;
+      for (int i = 0; i < 2 * nvariants; i++) { canon += run_engine(engs[i], i / 2, cfg, sc, h, w[i]) + "||"; called |= w[i].called; if (!w[i].viol.empty() && viol.empty()) viol = tags[i] + w[i].viol; }
+      // all loops must deliver the same callbacks, pass by pass, as long as no pass so far could depend on the order in which ready descriptors are served
+      for (int i = 1; i < 2 * nvariants && viol.empty(); i++) {
+        auto key = [](std::vector<Call> v) { std::vector<int> k; for (auto &c : v) k.push_back(c.e * 8 + c.m); std::sort(k.begin(), k.end()); return k; };
+        for (size_t p = 0; p < w[0].passes.size() && p < w[i].passes.size(); p++) {
+          if (!w[0].indep[p] || !w[i].indep[p]) break;
+          if (key(w[0].passes[p]) != key(w[i].passes[p])) { viol = std::string("backends-disagree ") + tags[0] + "-vs-" + tags[i] + " pass " + std::to_string(p); break; }
+        } }
+      return canon; };
+    std::vector<std::vector<Op>> group;      // what the next child executes
+    auto lookup = [&](const std::string &hk, Res &out) {
+      auto it = g_shared.find(hk); if (it != g_shared.end() && (sc.act == NONE || !(it->second.called & (1u << sc.e)))) { out = it->second; return true; }
+      auto io = g_own.find(std::to_string(si) + ":" + hk); if (io != g_own.end()) { out = io->second; return true; }
+      auto ip = g_pending.find(hk); if (ip != g_pending.end()) { out = ip->second; return true; }
+      return false; };
+    auto store = [&](const std::string &hk, const Res &r) {
+      bool acted = sc.act != NONE && (r.called & (1u << sc.e));
+      if (share && r.viol.empty() && !acted && g_shared.size() < shared_cap) g_shared[hk] = r;
+      else if (share && g_own.size() < shared_cap) g_own[std::to_string(si) + ":" + hk] = r;
+      else g_pending[hk] = r; };
+    // runs `group` in one child; false if the child did not deliver one complete result per history
+    auto run_group = [&](std::vector<Res> &out, std::string &crash) {
+      g_forks++; auto ch = ex.spawn(std::vector<Op>(), 0); hx::Eval e = hx::eval_forked_finish(ch.fo, ch.fe, ch.pid);
+      out.clear(); crash = e.viol; if (!e.viol.empty()) return false;
+      size_t pos = 0; while (pos < e.canon.size()) { size_t a = e.canon.find('\x03', pos), b = a == std::string::npos ? a : e.canon.find('\x03', a + 1), c = b == std::string::npos ? b : e.canon.find('\x04', b + 1); if (c == std::string::npos) return false;
+        out.push_back(Res{e.canon.substr(pos, a - pos), e.canon.substr(a + 1, b - a - 1), (unsigned)strtoul(e.canon.c_str() + b + 1, nullptr, 10)}); pos = c + 1; }
+      return out.size() == group.size(); };
+    ex.child_timeout_s = 120;
+    ex.run = [&](const std::vector<Op> &h, std::string &viol) -> std::string {
+      if (getpid() != parent) {          // in the forked child: the real evaluations of the group; results travel back in the "canonical state" of the engine's child protocol
+        std::string out;
+        for (auto &gh : group) { std::string v; unsigned called = 0; std::string c = evaluate(gh, v, called);
+          // the explorer only needs the identity of the canonical state: send the readable model part of the first loop and a 128-bit digest of the whole string
+          unsigned long long h1 = 1469598103934665603ULL, h2 = 0x9E3779B97F4A7C15ULL; for (unsigned char ch : c) { h1 = (h1 ^ ch) * 1099511628211ULL; h2 = (h2 + ch) * 0xD6E8FEB86659FD93ULL; h2 ^= h2 >> 29; }
+          char b[64]; snprintf(b, sizeof b, " %016llx%016llx", h1, h2); for (auto &x : v) if ((unsigned char)x < 8) x = '?';
+          out += c.substr(0, c.find("||")).substr(0, 160) + b + '\x03' + v + '\x03' + std::to_string(called) + '\x04'; }
+        return out; }
+      g_lookups++;
+      std::string hk = hist_key(h); Res r;
+      if (lookup(hk, r)) { g_reused++; viol = r.viol; return r.canon; }
+      // not known yet: execute it together with its siblings that are not known either (the explorer is going to ask for them next)
+      group.clear(); std::vector<std::string> keys;
+      if (h.empty() || !batch) { group.push_back(h); keys.push_back(hk); }
+      else { std::vector<Op> prefix(h.begin(), h.end() - 1); size_t oi = 0;
+        for (auto &op : ex.menu(prefix)) { if (prefix.empty() && nparts > 1 && (int)(oi++ % (size_t)nparts) != part) continue;
+          std::vector<Op> g = prefix; g.push_back(op); std::string gk = hist_key(g); Res dummy; if (gk != hk && lookup(gk, dummy)) continue; group.push_back(g); keys.push_back(gk); } }
+      std::vector<Res> out; std::string crash;
+      if (run_group(out, crash)) { g_evals += group.size(); for (size_t i = 0; i < out.size(); i++) store(keys[i], out[i]); }
+      else {      // somebody in the group kills the child: one child per history
+        g_regroup++; std::vector<std::vector<Op>> all = group; std::vector<std::string> allk = keys;
+        for (size_t i = 0; i < all.size(); i++) { group.assign(1, all[i]); g_evals++;
+          if (run_group(out, crash)) store(allk[i], out[0]); else store(allk[i], Res{"", crash.empty() ? std::string("crash:incomplete-result") : crash, ~0u}); } }
+      if (!lookup(hk, r)) { viol = "harness-error:group-did-not-contain-the-history"; return ""; }
+      viol = r.viol; return r.canon; };
+    g_pending.clear();
+    if (rdepth != depth) ex.max_viol_print = 0;      // a violation found by the first round is found (and printed) again by the second one
+    ex.explore(rdepth); g_explores++;
+    if (rdepth != depth) first_round[si] = std::make_pair(ex.states, ex.transitions);
+    else if (!ex.capped && first_round.count(si)) {   // the first round of this script is contained in the completed second one: do not count it twice
+      printf("@STAT states=-%zu transitions=-%zu\n", first_round[si].first, first_round[si].second); }
   }
+  // the explorer counts every request as an execution; 'executions' is corrected to the number of histories really executed (each on the four loops)
+  printf("@STAT executions=-%zu\n@STAT executions=%zu evaluations_reused=%zu children_forked=%zu groups_rerun_one_by_one=%zu\n", g_lookups, g_evals, g_reused, g_forks, g_regroup);
   return 0;
 }
